@@ -1,4 +1,152 @@
-//! xml5ever tokenizer replay (filled in with the XML checks)
-pub fn run(_state: &str, _exact: bool, _bom: bool, _profile: bool, _chunks: &[String], _end: bool) {
-    println!("xml replay not built yet");
+//! xml5ever tokenizer replay: same canonical text form as the HTML one (line numbers are always 0:
+//! the XML token sink gets none).
+use std::cell::RefCell;
+
+use markup5ever::buffer_queue::BufferQueue;
+use markup5ever::TokenizerResult;
+use tendril::StrTendril;
+use xml5ever::tokenizer::states as xs;
+use xml5ever::tokenizer::{ProcessResult, Tag, TagKind, Token, TokenSink, XmlTokenizer, XmlTokenizerOpts};
+use xml5ever::QualName;
+
+fn cps(s: &str) -> String {
+    s.chars().map(|c| format!("{:x}", c as u32)).collect::<Vec<_>>().join(",")
+}
+
+fn qn(q: &QualName) -> String {
+    match &q.prefix {
+        Some(p) => format!("{}:{}", cps(p), cps(&q.local)),
+        None => cps(&q.local),
+    }
+}
+
+fn xml_state(spec: &str) -> xs::XmlState {
+    let p: Vec<&str> = spec.split(':').collect();
+    let avk = |s: &str| match s {
+        "Unquoted" => xs::AttrValueKind::Unquoted,
+        "SingleQuoted" => xs::AttrValueKind::SingleQuoted,
+        "DoubleQuoted" => xs::AttrValueKind::DoubleQuoted,
+        x => panic!("attr kind {x}"),
+    };
+    let dk = |s: &str| match s {
+        "Public" => xs::DoctypeKind::Public,
+        "System" => xs::DoctypeKind::System,
+        x => panic!("doctype kind {x}"),
+    };
+    use xs::XmlState::*;
+    match p[0] {
+        "Data" => Data,
+        "TagState" => TagState,
+        "EndTagState" => EndTagState,
+        "EndTagName" => EndTagName,
+        "EndTagNameAfter" => EndTagNameAfter,
+        "Pi" => Pi,
+        "PiTarget" => PiTarget,
+        "PiTargetAfter" => PiTargetAfter,
+        "PiData" => PiData,
+        "PiAfter" => PiAfter,
+        "MarkupDecl" => MarkupDecl,
+        "CommentStart" => CommentStart,
+        "CommentStartDash" => CommentStartDash,
+        "Comment" => Comment,
+        "CommentLessThan" => CommentLessThan,
+        "CommentLessThanBang" => CommentLessThanBang,
+        "CommentLessThanBangDash" => CommentLessThanBangDash,
+        "CommentLessThanBangDashDash" => CommentLessThanBangDashDash,
+        "CommentEnd" => CommentEnd,
+        "CommentEndDash" => CommentEndDash,
+        "CommentEndBang" => CommentEndBang,
+        "Cdata" => Cdata,
+        "CdataBracket" => CdataBracket,
+        "CdataEnd" => CdataEnd,
+        "TagName" => TagName,
+        "TagEmpty" => TagEmpty,
+        "TagAttrNameBefore" => TagAttrNameBefore,
+        "TagAttrName" => TagAttrName,
+        "TagAttrNameAfter" => TagAttrNameAfter,
+        "TagAttrValueBefore" => TagAttrValueBefore,
+        "TagAttrValue" => TagAttrValue(avk(p[1])),
+        "Doctype" => Doctype,
+        "BeforeDoctypeName" => BeforeDoctypeName,
+        "DoctypeName" => DoctypeName,
+        "AfterDoctypeName" => AfterDoctypeName,
+        "AfterDoctypeKeyword" => AfterDoctypeKeyword(dk(p[1])),
+        "BeforeDoctypeIdentifier" => BeforeDoctypeIdentifier(dk(p[1])),
+        "DoctypeIdentifierDoubleQuoted" => DoctypeIdentifierDoubleQuoted(dk(p[1])),
+        "DoctypeIdentifierSingleQuoted" => DoctypeIdentifierSingleQuoted(dk(p[1])),
+        "AfterDoctypeIdentifier" => AfterDoctypeIdentifier(dk(p[1])),
+        "BetweenDoctypePublicAndSystemIdentifiers" => BetweenDoctypePublicAndSystemIdentifiers,
+        "BogusDoctype" => BogusDoctype,
+        "BogusComment" => BogusComment,
+        x => panic!("xml state {x}"),
+    }
+}
+
+struct XSink {
+    out: RefCell<Vec<String>>,
+}
+
+impl TokenSink for XSink {
+    type Handle = ();
+    fn process_token(&self, token: Token) -> ProcessResult<()> {
+        let s = match &token {
+            Token::Characters(t) => format!("Chars {}", cps(t)),
+            Token::NullCharacter => "Null".to_string(),
+            Token::EndOfFile => "EOF".to_string(),
+            Token::Comment(t) => format!("Comment {}", cps(t)),
+            Token::ParseError(_) => "Error".to_string(),
+            Token::ProcessingInstruction(pi) => format!("PI [{}] [{}]", cps(&pi.target), cps(&pi.data)),
+            Token::Doctype(d) => {
+                let o = |x: &Option<StrTendril>| match x {
+                    Some(t) => format!("[{}]", cps(t)),
+                    None => "-".to_string(),
+                };
+                format!("Doctype {} {} {} false", o(&d.name), o(&d.public_id), o(&d.system_id))
+            },
+            Token::Tag(Tag { kind, name, attrs }) => {
+                let k = match kind {
+                    TagKind::StartTag => "StartTag",
+                    TagKind::EndTag => "EndTag",
+                    TagKind::EmptyTag => "EmptyTag",
+                    TagKind::ShortTag => "ShortTag",
+                };
+                let a: Vec<String> = attrs.iter().map(|a| format!("{}={}", qn(&a.name), cps(&a.value))).collect();
+                format!("XTag {} [{}] [{}]", k, qn(name), a.join(" "))
+            },
+        };
+        self.out.borrow_mut().push(format!("{s} @0"));
+        ProcessResult::Continue
+    }
+}
+
+pub fn run(state: &str, exact: bool, bom: bool, profile: bool, chunks: &[String], end: bool) {
+    let tok = XmlTokenizer::new(
+        XSink { out: RefCell::new(vec![]) },
+        XmlTokenizerOpts {
+            exact_errors: exact,
+            discard_bom: bom,
+            profile,
+            initial_state: Some(xml_state(state)),
+        },
+    );
+    let q = BufferQueue::default();
+    let mut feeds: Vec<&str> = vec![];
+    for c in chunks {
+        q.push_back(StrTendril::from_slice(c));
+        match tok.feed(&q) {
+            TokenizerResult::Done => feeds.push("Done"),
+            TokenizerResult::Script(_) => feeds.push("Script"),
+            TokenizerResult::EncodingIndicator(_) => feeds.push("EncodingIndicator"),
+        }
+        if !q.is_empty() {
+            feeds.push("QUEUE-NOT-EMPTY");
+        }
+    }
+    if end {
+        tok.end();
+    }
+    for l in tok.sink.out.borrow().iter() {
+        println!("{l}");
+    }
+    println!("feeds {}", feeds.join(","));
 }
